@@ -77,19 +77,26 @@ def load_openskill(fresh=False):
         import sched
 
         sched._codes = None
+        sched._extra_codes = []
     except ImportError:
         pass
     return models
 
 
-def fresh_models():
+def fresh_models(instrument=False):
     """A second, independent import of the library (its own module globals and caches) that
-    leaves the main copy in sys.modules untouched.  Used for pristine reference executions."""
+    leaves the main copy in sys.modules untouched.  Used for pristine reference executions
+    and for the restarted process of league B (then `instrument`: its code objects join the
+    set the crash injector and the scheduler put events on)."""
     load_openskill()
     saved = {k: sys.modules.pop(k) for k in _lib_keys()}
     try:
         import openskill.models as m  # noqa
 
+        if instrument:
+            import sched
+
+            sched.register_modules([sys.modules[k] for k in _lib_keys()])
         return m
     finally:
         for k in _lib_keys():
